@@ -2,5 +2,6 @@ package engines
 
 // Registry maps engine names to entry points.
 var Registry = map[string]func(args []string){
-	"fid": Fid,
+	"fid":   Fid,
+	"serve": Serve,
 }
